@@ -422,6 +422,22 @@ func runMatrix(c *core.Case) {
 	c.Sample(0, map[string]any{"sub": "field-matrix", "field_type": ft.String(), "tag": string(sf.Tag)})
 }
 
+type bigOffset struct {
+	Pad [65536 + 24]byte
+	A   int64
+	S   string
+	P   *int32
+	L   []uint32
+}
+
+type hugeOffset struct {
+	A   int32
+	Pad [1<<20 + 8]byte
+	M   map[string]int64
+	N   struct{ X, Y int64 }
+	Z   bool
+}
+
 // top-level values that are not plain structs: Message implementations by value and by pointer
 func runTopLevel(c *core.Case) {
 	c.Journal("top-level")
@@ -430,6 +446,15 @@ func runTopLevel(c *core.Case) {
 	for _, t := range []reflect.Type{ptypes.TMsg, ptypes.TGogo, ptypes.TGogoV, ptypes.TRaw} {
 		v := f.NewValue(t)
 		check(c, "top-level", v)
+	}
+	// fields at offsets beyond 64 KiB and 1 MiB inside their struct
+	if c.Index%8 == 0 {
+		for _, t := range []reflect.Type{reflect.TypeOf(bigOffset{}), reflect.TypeOf(hugeOffset{})} {
+			v := f.NewValue(t)
+			if !check(c, "declared|"+t.Name(), v) {
+				break
+			}
+		}
 	}
 	// declared recursive and mutually recursive message types, unexported fields in between
 	for _, t := range ptypes.RecLibrary {
